@@ -408,7 +408,14 @@ def run(ctx):
             for e in json.load(f):
                 if not any(k.get("property") == e["property"] and k.get("key") == e["key"] for k in ctx.known()):
                     ctx.known().append(e)
-    binary = ctx.build("cachex")
+    if os.environ.get("C16_DEV_ASSUME_FIXED") == "1":
+        # development switch: judge as after the coordinator committed the fixes (a fixed entry suppresses nothing)
+        for k in ctx.known():
+            if k.get("property") == "C16":
+                k["status"] = "fixed"
+    # private copy: other agents' clean-ups (rm -rf /verif/.build-*) must not pull the driver away mid-run
+    import shutil
+    binary = shutil.copy2(ctx.build("cachex"), ctx.path("cachex-bin"))
     if ctx.replay_in:
         # re-execute the history of a replay file on the real engine and validate its log again
         with open(ctx.replay_in) as f:
